@@ -112,8 +112,8 @@ def run(prop, tier, seed, a):
         seen_kf.add(k['id'])
         print("KNOWN-FINDING: property=%s %s [%s]" % (prop, k['what'], k['id']))
     if code == 1:
-        for r in refuted:
-            path = RP.write_replay(prop, r, src, cx)
+        paths = RP.write_replays(prop, refuted, src, cx)
+        for r, path in zip(refuted, paths):
             suffix = "" if r.get('replayed') else " no-failing-input-found"
             print("VIOLATION property=%s replay=%s obligation=%s%s" % (prop, path, r['name'], suffix))
     if code == 2:
